@@ -811,7 +811,11 @@ class Interp:
         if isinstance(op, ast.Eq):
             return run.eq(a, b)
         if isinstance(op, ast.NotEq):
-            return NOT(run.eq(a, b))
+            r = run.eq(a, b)
+            if isinstance(r, SOpaque):      # element-wise comparison of an opaque library value (e.g. a column mask)
+                f = self.ctx.uf("negate_%s" % r.sort, self.ctx.sort(r.sort), self.ctx.sort(r.sort))
+                return SOpaque(r.sort, f(r.t))
+            return NOT(r)
         if isinstance(op, (ast.In, ast.NotIn)):
             r = self.contains(b, a, node)
             return r if isinstance(op, ast.In) else NOT(r)
@@ -968,6 +972,13 @@ class Interp:
             return self.getslice(base, lo, hi, e)
         idx = self.ev(e.slice, fr)
         return self.getitem(base, idx, e)
+
+    def e_Slice(self, e, fr):
+        """a slice inside a tuple subscript (a[:, m]): a tagged value, interpreted by the subscripted object's model"""
+        if e.step is not None:
+            raise Unsupported("slice step", e)
+        return T(("slice", self.ev(e.lower, fr) if e.lower is not None else None,
+                  self.ev(e.upper, fr) if e.upper is not None else None))
 
     def norm_index(self, i, n, node, what="index"):
         """normalise a possibly negative index against length n; emits bounds obligation"""
